@@ -51,6 +51,21 @@ def env_wf(model):
                 for c in anc[d]:
                     if c not in anc[e]:
                         return 'MRO of {} lacks {} (an ancestor of its ancestor {})'.format(e, c, d)
+    # the names __init__ accepts (apart from self / _yatiml_extra) are the parameters, each once
+    # (hypotheses `paramNames` and `ArgsAreParams` of C01_loaded_value_conforms / C04_calls_within_reach)
+    import enum
+    import inspect
+    from yatiml.introspection import class_subobjects
+    from yatiml.util import is_string_like
+    for c in regs:
+        if issubclass(c, enum.Enum) or is_string_like(c):
+            continue
+        args = [a for a in inspect.getfullargspec(c.__init__).args if a not in ('self', '_yatiml_extra')]
+        params = [x[0] for x in class_subobjects(c)]
+        if len(set(params)) != len(params):
+            return 'repeated parameter name in ' + c.__name__
+        if set(args) != set(params):
+            return 'argument names {} of {} differ from its parameters {}'.format(args, c.__name__, params)
     return None
 
 
